@@ -452,9 +452,11 @@ impl<E: Effect, R: CommandReceiver<E>, S: EventSender<E>> Worker<E, R, S> {
             .get_process_mut(id)
             .ok_or(EnvironmentError::ProcessNotFound(id))?;
 
-        // Check if the process failed
+        // A failed process cannot be resumed, but that is the caller's concern, not a reason to
+        // stop this worker and every process on it: the process stays failed, and the result
+        // request that follows a resume reports its error.
         if let Some(Err(_)) = &process.result {
-            return Err(EnvironmentError::ProcessFailed(id));
+            return Ok(());
         }
 
         // Check that the process is sleeping (it's persistent and has a successful result)
